@@ -3,6 +3,6 @@ CONSTANTS
   DocSet <- mcDocs
   Matchers <- mcMatchers
   MaxMs = 2
-  EmitCases = TRUE
+  EmitCases = FALSE
 INVARIANTS OnlyTargetsChange MaskedIndependence FailuresNamed
 CHECK_DEADLOCK FALSE
